@@ -313,6 +313,14 @@ func TestC12Encode(t *testing.T) {
 		p := &ref.PES{Length: -1}
 		p.StreamID = gen.StreamIDWithHeader(t, "sid")
 		p.Opt = gen.PESOpt(t, gen.PESOptOpts{Writable: true, MaxSize: 170}, "opt")
+		stray := false
+		if gen.Chance(t, 8, "nohdr") {
+			// stream ids without optional header; half of the time a header struct is supplied anyway and must be ignored
+			p.StreamID = rapid.SampledFrom([]uint8{0xbe, 0xbf}).Draw(t, "sidnh")
+			p.Opt = nil
+			stray = gen.Bool(t, "stray")
+			rec.Class("stream_id_without_optional_header")
+		}
 		var n int
 		switch rapid.IntRange(0, 5).Draw(t, "plk") {
 		case 0:
@@ -341,6 +349,9 @@ func TestC12Encode(t *testing.T) {
 		}
 		m.SetPCRPID(pid)
 		d := conv.PESStruct(p, false, p.Payload, 0)
+		if stray {
+			d.Header.OptionalHeader = &astits.PESOptionalHeader{MarkerBits: 2, PTSDTSIndicator: 3, PTS: &astits.ClockReference{Base: 5}, DTS: &astits.ClockReference{Base: 4}}
+		}
 		if _, err := m.WriteData(&astits.MuxerData{PID: pid, PES: d}); err != nil {
 			t.Fatalf("WriteData error: %v\nmodel %s", err, obs.Canon(p))
 		}
@@ -351,7 +362,7 @@ func TestC12Encode(t *testing.T) {
 		exact := p.EncodedLength()
 		want := p.Encode2(exact)
 		if len(got) != len(want) || len(got) < 6 || !bytes.Equal(got[:4], want[:4]) || !bytes.Equal(got[6:], want[6:]) {
-			t.Fatalf("PES bytes written %s\nreference         %s\nmodel %s", hexHead(got, 64), hexHead(want, 64), obs.Canon(p.Opt))
+			t.Fatalf("PES bytes written %s\nreference         %s\nstream id %#x, optional header struct supplied although the id has none: %v\nmodel %s", hexHead(got, 64), hexHead(want, 64), p.StreamID, stray, obs.Canon(p.Opt))
 		}
 		gl := int(got[4])<<8 | int(got[5])
 		videoID := p.StreamID >= 0xe0 && p.StreamID <= 0xef || p.StreamID == 0xfd
@@ -367,10 +378,11 @@ func TestC12Encode(t *testing.T) {
 			t.Fatalf("PES_packet_length %d written, actual %d (stream id %#x)", gl, exact, p.StreamID)
 		}
 		parts := 0
-		o := p.Opt
-		for _, b := range []bool{o.PTS != nil, o.ESCR != nil, o.ESRate != nil, o.Trick != nil, o.CopyInfo != nil, o.Ext != nil} {
-			if b {
-				parts++
+		if o := p.Opt; o != nil {
+			for _, b := range []bool{o.PTS != nil, o.ESCR != nil, o.ESRate != nil, o.Trick != nil, o.CopyInfo != nil, o.Ext != nil} {
+				if b {
+					parts++
+				}
 			}
 		}
 		h := obs.NewHasher()
